@@ -660,3 +660,22 @@ Proof.
   - now rewrite !swrap_small.
   - now rewrite !wrap_small.
 Qed.
+
+(* ---------- an operand compared with itself: still a function of the values and eps ---------- *)
+Lemma close_self e a : close e a a = (0 <? e) && finitez a.
+Proof.
+  unfold close, finitez. destruct (decode a); simpl; rewrite ?andb_false_r; auto.
+  rewrite Z.sub_diag. simpl. now rewrite andb_true_r.
+Qed.
+Lemma all2_diag f (d : list Z) : all2 f d d = forallb (fun a => f a a) d.
+Proof. induction d; simpl; congruence. Qed.
+Lemma self_all_pos eps (l : list Z) : (0 <? eps) = true -> forallb (fun a => close eps a a) l = forallb finitez l.
+Proof. intros E. induction l as [|a l IH]; simpl; [reflexivity|]. now rewrite close_self, E, IH. Qed.
+Lemma isclose_self nd eps s d : wfb (Arr s d) = true ->
+  isclose nd eps (Arr s d) (Arr s d) = Ret ((0 <? eps) && forallb finitez d).
+Proof.
+  intros W. rewrite isclose_same_shape by assumption. f_equal. rewrite all2_diag.
+  destruct (wf_arr _ _ W) as [Hp Hl]. pose proof (prod_pos _ Hp).
+  destruct (0 <? eps) eqn:E; [now apply self_all_pos|].
+  destruct d as [|x d]; [unfold zlen in Hl; simpl in Hl; lia|]. simpl. now rewrite close_self, E.
+Qed.
